@@ -19,9 +19,9 @@ func TestMain(m *testing.M) {
 	code := pbt.Main(m, pbt.Meta{
 		Property: "C09",
 		Level:    "exploration",
-		Rule: "histories of AddField/RemoveField/AddDoc/AddDocTx-in-BulkWrite/AddDocTx-in-Update/RemoveDoc/FieldTermCounts/FieldStringTermCounts over 3 field paths (2 nested), 5 document ids, 6 string terms and 12 boundary numbers on kvindex.KVIndex over Badger (thorough: also the reference ordered map, LevelDB, Bolt, Pebble); " +
+		Rule: "histories of AddField/RemoveField/AddDoc/AddDocTx-in-BulkWrite/AddDocTx-in-Update/RemoveDoc/RemoveDocTx-in-Update/FieldTermCounts/FieldStringTermCounts over 3 field paths (2 nested), 5 document ids, 6 string terms and 12 boundary numbers on kvindex.KVIndex over Badger (thorough: also the reference ordered map, LevelDB, Bolt, Pebble); " +
 			"after every step every query (GetTermMatch for every term of the case, with and without maxCount; FieldTerms; FieldNumbers; FieldTermNumberMin/Max; FieldTermNumberRange over pairs of the present terms, 0 and the infinities; the two count queries where the history asks for them) is compared with a scan of the model's live documents. " +
-			"Exhaustive: all sequences of exactly 3 (thorough 4) ops over a 12-op alphabet; random: unconstrained histories, and histories steered clear of the listed defects. " +
+			"Exhaustive: all sequences of exactly 3 (thorough 4) ops over a 13-op alphabet; random: unconstrained histories, and histories steered clear of the listed defects. " +
 			"A case is non-trivial when queries were judged after a removal or replacement of a live document on a field holding >= 2 indexed live documents; distinct = distinct op list.",
 		Assumptions: []string{
 			"a document added before a field was registered is not expected under that field (kvgraph/index.go: TODO reindex existing data); RemoveField followed by AddField starts empty",
@@ -80,7 +80,7 @@ func genDoc(rt *rapid.T) DocIn {
 
 var opWeights = func() []string {
 	var out []string
-	for k, n := range map[string]int{"addfield": 5, "removefield": 2, "adddoc": 12, "bulk": 4, "update": 3, "removedoc": 7, "counts": 3, "scounts": 1} {
+	for k, n := range map[string]int{"addfield": 5, "removefield": 2, "adddoc": 12, "bulk": 4, "update": 3, "removedoc": 6, "removedoctx": 3, "counts": 3, "scounts": 1} {
 		for i := 0; i < n; i++ {
 			out = append(out, k)
 		}
@@ -94,7 +94,7 @@ func genOp(rt *rapid.T) Op {
 	switch kind {
 	case "addfield", "removefield", "counts", "scounts":
 		return Op{Op: kind, F: rapid.IntRange(0, len(fieldPaths)-1).Draw(rt, "field")}
-	case "removedoc":
+	case "removedoc", "removedoctx":
 		return Op{Op: kind, ID: rapid.IntRange(0, len(docIDs)-1).Draw(rt, "doc")}
 	case "adddoc":
 		return Op{Op: kind, Docs: []DocIn{genDoc(rt)}}
@@ -156,9 +156,17 @@ func newAvoider() *avoider {
 func (a *avoider) try(ops []Op) (next []*sim, ok bool, diverged []uint) {
 	next = make([]*sim, len(a.sims))
 	ok = true
+	// what a removedoctx removes is what the caller knows as the stored version: the
+	// defect-free simulator's view, for every simulator
+	resolved := make([]Op, len(ops))
+	truth := a.sims[0]
+	for k, op := range ops {
+		resolved[k] = resolve(op, truth.content)
+		truth, _, _ = truth.apply(resolved[k])
+	}
 	for i, s := range a.sims {
 		cur := s
-		for _, op := range ops {
+		for _, op := range resolved {
 			n, failed, _ := cur.apply(op)
 			if failed {
 				ok = false
@@ -210,13 +218,16 @@ func (a *avoider) push(op Op) {
 		uniq := op
 		uniq.Docs = nil
 		seen = map[int]bool{}
+		var untx []Op
 		for _, d := range op.Docs {
 			if !seen[d.ID] {
 				seen[d.ID] = true
 				uniq.Docs = append(uniq.Docs, d)
+				untx = append(untx, Op{Op: "removedoctx", ID: d.ID})
 			}
 		}
-		cands = append(cands, append(alt, uniq))
+		// the way kvgraph replaces: un-index the stored version, then add
+		cands = append(cands, append(untx, uniq), append(alt, uniq))
 	}
 	for i, ops := range cands {
 		next, ok, diverged := a.try(ops)
@@ -287,7 +298,7 @@ func TestHistories(t *testing.T) {
 		runCase(t, c)
 		return
 	}
-	pbt.Check(t, 800, 12000, func(rt *rapid.T) {
+	pbt.Check(t, 800, 10000, func(rt *rapid.T) {
 		c := genFree(rt)
 		if pbt.WantSample(t) {
 			pbt.Sample(t, opsText(c.Ops))
@@ -300,7 +311,7 @@ func TestHistoriesAvoiding(t *testing.T) {
 	if _, ok := pbt.ReplayFile(); ok {
 		t.Skip("replay mode (TestHistories replays)")
 	}
-	pbt.Check(t, 800, 12000, func(rt *rapid.T) {
+	pbt.Check(t, 800, 10000, func(rt *rapid.T) {
 		c := genAvoiding(rt)
 		if pbt.WantSample(t) {
 			pbt.Sample(t, opsText(c.Ops))
@@ -332,6 +343,7 @@ var alphabet = []Op{
 	{Op: "update", Docs: []DocIn{sdoc(3, absent, nM25)}},
 	{Op: "removedoc", ID: 0},
 	{Op: "removedoc", ID: 1},
+	{Op: "removedoctx", ID: 0},
 	{Op: "counts", F: 0},
 	{Op: "addfield", F: 0},
 	{Op: "removefield", F: 1},
@@ -542,8 +554,8 @@ func runBig(t pbt.TB, c bigCase) {
 		case want[x] == 0 && x == hi && hi < 0:
 			sig = "range:negative-hi-included"
 		}
-		if c.Driver != "badger" && c.Driver != "mem" {
-			sig = c.Driver + ":" + sig
+		if c.Driver != "badger" && c.Driver != "mem" && sig == "range:many-terms:content" {
+			sig = c.Driver + ":" + sig // not one of the symptoms of the index's own scan
 		}
 		if !pbt.Discrepancy(t, c, sig, "[%s] FieldTermNumberRange(%s, %v, %v) over %d terms: term %v has count %d, want %d", c.Driver, field, lo, hi, c.N, x, got[x], want[x]) {
 			continue
